@@ -10,6 +10,13 @@ CLAIMED = {
     },
 }
 
+CLAIMED["C02"] = {
+    "text": "Data-structure contract on ReceptorEstimator: after __init__/register_system the stored A equals the capture spec of every (filter, source) pair; system_capture(X) = X A^T; system_capture(x) equals the capture of the mixed spectrum; relative captures equal K(Q+baseline) / T(x) for scalar, vector and matrix K and zero/scalar/vector baseline; after background / system adaptation the relative capture of that background is exactly 1 (under the definedness precondition Q_bg+baseline != 0), the old K is fully replaced and nothing but K changes (frame). Proved for all real inputs per enumerated shape; calculate_capture enters through its C01 contract (stub).",
+    "design_ref": "DESIGN.md section 6 C02",
+    "note": A_COMMON + " calculate_capture is replaced by its contract (verified separately under C01). Quick grid (nf,ns) in {(2,1),(2,3),(3,4)}; thorough grid 2-5 x 1-8.",
+    "technique": "contract-based deductive verification: class invariant + method postconditions on the real ReceptorEstimator, callee contracts as stubs, z3 (rational-function identity normal form / SMT) and cvc5",
+}
+
 NOT_APPLICABLE = {}
 
 FIX_COMMITS = ["b2d156a (np.trapz -> trapezoid)"]
